@@ -1,9 +1,230 @@
-(* C16 - Resource exhaustion and interrupted system calls (statements only). *)
+(* C16 - Resource exhaustion and interrupted system calls are survived cleanly.
+   Only statements, each closed by [exact] of a lemma proved in Proofs/FaultsProofs.v,
+   with Print Assumptions beneath.  The models (Model/Faults.v) consume an oracle:
+   w_alloc = answers of the allocator, w_sys = answers of the kernel
+   (Ok | Fail errno | Intr); the ledger records what a call allocated / registered. *)
 From UV Require Import Lib.Base Model.Faults Proofs.FaultsProofs.
 Local Open Scope Z_scope.
 
+(* ---- interrupted system calls ------------------------------------------------ *)
+(* Two oracles that differ only in interrupted calls (any number of Intr answers
+   inserted anywhere) give the same result, ledger and callback status. *)
+Theorem C16_eintr_transparent :
+  forall w1 w2, w_alloc w1 = w_alloc w2 -> strip (w_sys w1) = strip (w_sys w2) ->
+  (forall l, obs (uv_accept_fd l w1) = obs (uv_accept_fd l w2)) /\
+  (forall n c e l, obs (uv_write2 n c e l w1) = obs (uv_write2 n c e l w2)) /\
+  (forall n e p a l, obs (uv_udp_send n e p a l w1) = obs (uv_udp_send n e p a l w2)) /\
+  (forall l, obs (uv_async_send l w1) = obs (uv_async_send l w2)) /\
+  fst (uv_read_step w1) = fst (uv_read_step w2).
+Proof.
+  intros w1 w2 Ha Hs. assert (W : weq w1 w2) by (split; assumption).
+  split; [intros; apply accept_weq; exact W|].
+  split; [intros; apply write2_weq; exact W|].
+  split; [intros; apply udp_send_weq; exact W|].
+  split; [intros; apply async_send_weq; exact W|].
+  apply read_step_weq; exact W.
+Qed.
+Print Assumptions C16_eintr_transparent.
+
+(* the read loops of the wake-up channels: the outcome depends on the oracle with the
+   interrupted calls removed only *)
+Theorem C16_eintr_transparent_wakeup :
+  forall o lg lg',
+  fst (fst (uv_async_io o lg)) = fst (fst (uv_async_io (strip o) lg')) /\
+  fst (fst (uv_signal_event o lg)) = fst (fst (uv_signal_event (strip o) lg')).
+Proof. intros; split; [apply async_io_strip | apply signal_event_strip]. Qed.
+Print Assumptions C16_eintr_transparent_wakeup.
+
+(* concrete form: k interrupted calls in front of any oracle *)
+Theorem C16_eintr_storm :
+  forall k n c e l al sy lg,
+  obs (uv_write2 n c e l (mkW al (repeat Intr k ++ sy) lg)) = obs (uv_write2 n c e l (mkW al sy lg)) /\
+  obs (uv_accept_fd l (mkW al (repeat Intr k ++ sy) lg)) = obs (uv_accept_fd l (mkW al sy lg)).
+Proof.
+  intros. split; [apply write2_weq | apply accept_weq]; split; cbn; auto using strip_app_intr.
+Qed.
+Print Assumptions C16_eintr_storm.
+
+(* with the answers the kernel can give on these descriptors (success, EAGAIN, EINTR) the
+   wake-up never aborts and the signal message is dispatched *)
+Theorem C16_wakeup_safe :
+  forall o lg l w,
+  Forall (fun a => a = Ok \/ a = Fail EAGAIN \/ a = Intr) o ->
+  Forall (fun a => a = Ok \/ a = Fail EAGAIN \/ a = Intr) (w_sys w) ->
+  fst (fst (uv_async_io o lg)) = Ret RcOk /\
+  fst (fst (uv_signal_event o lg)) = (Ret RcOk, true) /\
+  o_res (uv_async_send l w) = Ret RcOk /\ o_led (uv_async_send l w) = l.
+Proof.
+  intros o lg l w F1 F2. split; [apply async_io_safe; exact F1|].
+  split; [apply signal_event_dispatched; exact F1|]. apply async_send_safe; exact F2.
+Qed.
+Print Assumptions C16_wakeup_safe.
+
+(* ---- fault_safe: result = fault-free result, or UV_E<errno> of an injected fault with the
+        ledger as before the call, or abort() at a permitted site -------------------- *)
+Theorem C16_accept_fault_safe :
+  forall l w,
+  (o_res (uv_accept_fd l w) = Ret RcOk /\ o_led (uv_accept_fd l w) = add_fds 1 l) \/
+  (exists e, o_res (uv_accept_fd l w) = Ret (RcErr e) /\ In (Fail e) (w_sys w) /\ o_led (uv_accept_fd l w) = l).
+Proof. exact accept_fault_safe. Qed.
+Print Assumptions C16_accept_fault_safe.
+
+Theorem C16_udp_send_fault_safe :
+  forall n e p a l w,
+  let o := uv_udp_send n e p a l w in
+  o_res o = Ret RcOk \/ (o_res o = Ret (RcErr ENOMEM) /\ In false (w_alloc w) /\ o_led o = l).
+Proof. exact udp_send_fault_safe. Qed.
+Print Assumptions C16_udp_send_fault_safe.
+
+Theorem C16_fs_path_fault_safe :
+  forall ps l w,
+  safe_outcome l w (uv_fs_stat_async ps l w) /\ safe_outcome l w (uv_fs_rename_async ps l w).
+Proof. intros; split; [apply fs_stat_fault_safe | apply fs_rename_fault_safe]. Qed.
+Print Assumptions C16_fs_path_fault_safe.
+
+Theorem C16_getaddrinfo_fault_safe :
+  forall ps l w,
+  safe_outcome l w (uv_getaddrinfo None ps l w) /\
+  (forall code, o_res (uv_getaddrinfo (Some code) ps l w) = Ret (RcOther code) /\
+                o_led (uv_getaddrinfo (Some code) ps l w) = l).
+Proof. intros; split; [apply getaddrinfo_fault_safe | intros; apply getaddrinfo_idna_error]. Qed.
+Print Assumptions C16_getaddrinfo_fault_safe.
+
+Theorem C16_close_fd :
+  forall l w,
+  snd (fst (uv_close_fd l w)) = add_fds (-1) l /\
+  (hd Ok (w_sys w) = Intr -> fst (fst (uv_close_fd l w)) = RcOk).
+Proof. exact close_fd_spec. Qed.
+Print Assumptions C16_close_fd.
+
+Theorem C16_maybe_resize_abort_permitted :
+  forall need l w,
+  fst (fst (maybe_resize need l w)) = None \/
+  (fst (fst (maybe_resize need l w)) = Some SMaybeResize /\ permitted SMaybeResize = true /\ In false (w_alloc w)).
+Proof.
+  intros. destruct (maybe_resize_spec need l w) as [H|[H1 H2]]; [left; exact H | right; repeat split; auto].
+Qed.
+Print Assumptions C16_maybe_resize_abort_permitted.
+
+(* ---- uv_write2: refuted on the current code (item 7) ------------------------------ *)
 Theorem C16_write2_fault_safe_refuted :
   exists (w : world) (l : ledger),
     o_res (uv_write2 6 false true l w) = Ret (RcErr ENOMEM) /\ o_led (uv_write2 6 false true l w) <> l.
 Proof. exact write2_refuted_witness. Qed.
 Print Assumptions C16_write2_fault_safe_refuted.
+
+(* what holds: the result clause; after UV_ENOMEM the ledger is the old one except that the
+   request stays counted *)
+Theorem C16_write2_partial :
+  forall n c e l w,
+  let o := uv_write2 n c e l w in
+  (o_res o = Ret RcOk /\ l_reqs (o_led o) = l_reqs l + 1) \/
+  (o_res o = Ret (RcErr ENOMEM) /\ In false (w_alloc w) /\ o_led o = add_reqs 1 l).
+Proof. exact write2_partial. Qed.
+Print Assumptions C16_write2_partial.
+
+(* with the allocation moved in front of uv__req_init the full statement holds *)
+Theorem C16_write2_fixed_fault_safe :
+  forall n c e l w,
+  let o := uv_write2_fixed n c e l w in
+  o_res o = Ret RcOk \/ (o_res o = Ret (RcErr ENOMEM) /\ In false (w_alloc w) /\ o_led o = l).
+Proof. exact write2_fixed_fault_safe. Qed.
+Print Assumptions C16_write2_fixed_fault_safe.
+
+(* ---- uv_fs_poll_start: refuted (item 8) ---------------------------------------------- *)
+Theorem C16_fs_poll_start_fault_safe_refuted :
+  exists (w : world) (l : ledger),
+    o_res (uv_fs_poll_start false true l w) = Ret (RcErr ENOMEM) /\
+    l_dangling (o_led (uv_fs_poll_start false true l w)) = l_dangling l + 1 /\
+    l_hq (o_led (uv_fs_poll_start false true l w)) = l_hq l + 1.
+Proof. exact fs_poll_start_refuted_witness. Qed.
+Print Assumptions C16_fs_poll_start_fault_safe_refuted.
+
+Theorem C16_fs_poll_start_partial :
+  forall act ps l w,
+  let o := uv_fs_poll_start act ps l w in
+  o_res o = Ret RcOk \/
+  (o_res o = Ret (RcErr ENOMEM) /\ In false (w_alloc w) /\
+   (o_led o = l \/ o_led o = add_dangling 1 (add_hq 1 l))) \/
+  (exists s, o_res o = Abort s /\ permitted s = true).
+Proof. exact fs_poll_start_partial. Qed.
+Print Assumptions C16_fs_poll_start_partial.
+
+(* ---- uv_os_environ: refuted (item 9) ---------------------------------------------------- *)
+Theorem C16_os_environ_fault_safe_refuted :
+  exists (env : list bool) (w : world) (l : ledger),
+    o_res (uv_os_environ env l w) = Ret (RcErr ENOMEM) /\ l_mem (o_led (uv_os_environ env l w)) = l_mem l + 2.
+Proof. exact os_environ_refuted_witness. Qed.
+Print Assumptions C16_os_environ_fault_safe_refuted.
+
+Theorem C16_os_environ_partial :
+  forall env l w,
+  let o := uv_os_environ env l w in
+  (o_res o = Ret RcOk) \/
+  (o_res o = Ret (RcErr ENOMEM) /\ In false (w_alloc w) /\ exists k, 0 <= k /\ o_led o = add_mem k l).
+Proof. exact os_environ_partial. Qed.
+Print Assumptions C16_os_environ_partial.
+
+Theorem C16_os_environ_fixed_fault_safe :
+  forall env l w,
+  let o := uv_os_environ_fixed env l w in
+  o_res o = Ret RcOk \/ (o_res o = Ret (RcErr ENOMEM) /\ In false (w_alloc w) /\ o_led o = l).
+Proof. exact os_environ_fixed_fault_safe. Qed.
+Print Assumptions C16_os_environ_fixed_fault_safe.
+
+(* ---- uv_fs_event_start (item 17) ---------------------------------------------------------- *)
+(* on every error return the request / handle / allocation accounting is untouched; the
+   descriptor count grows by at most the loop-owned inotify descriptor (released by
+   uv_loop_close); a kernel watch can be left behind only by the UV_ENOMEM return *)
+Theorem C16_fs_event_start_partial :
+  forall io kw nr l w,
+  let o := uv_fs_event_start io kw nr l w in
+  o_res o = Ret RcOk \/
+  (exists s, o_res o = Abort s /\ permitted s = true) \/
+  (exists r, o_res o = Ret r /\ r <> RcOk /\ same_accounting l (o_led o) /\
+     (l_fds (o_led o) = l_fds l \/ (io = false /\ l_fds (o_led o) = l_fds l + 1)) /\
+     (l_watch (o_led o) = l_watch l \/ (r = RcErr ENOMEM /\ l_watch (o_led o) = l_watch l + 1))).
+Proof. exact fs_event_start_partial. Qed.
+Print Assumptions C16_fs_event_start_partial.
+
+Theorem C16_fs_event_start_watch_refuted :
+  exists (w : world) (l : ledger),
+    o_res (uv_fs_event_start true false false l w) = Ret (RcErr ENOMEM) /\
+    l_watch (o_led (uv_fs_event_start true false false l w)) = l_watch l + 1.
+Proof. exact fs_event_start_watch_witness. Qed.
+Print Assumptions C16_fs_event_start_watch_refuted.
+
+(* ---- uv_spawn -------------------------------------------------------------------------------- *)
+(* every error return leaves request / active-handle counters and the allocation ledger as
+   before; the process handle itself is linked into handle_queue (it must be closed) *)
+Theorem C16_spawn_error_accounting :
+  forall stdio fc l w r,
+  o_res (uv_spawn stdio fc l w) = Ret r -> r <> RcOk ->
+  same_accounting (add_hq 1 l) (o_led (uv_spawn stdio fc l w)).
+Proof. exact spawn_error_accounting. Qed.
+Print Assumptions C16_spawn_error_accounting.
+
+(* ---- uv_loop_init: refuted (items 10 and 23) ---------------------------------------------------- *)
+Theorem C16_loop_init_backend_fd_refuted :
+  exists (w : world) (l : ledger),
+    o_res (uv_loop_init false l w) = Ret (RcErr EMFILE) /\
+    l_mem (o_led (uv_loop_init false l w)) = l_mem l /\
+    l_fds (o_led (uv_loop_init false l w)) = l_fds l + 1.
+Proof. exact loop_init_backend_fd_witness. Qed.
+Print Assumptions C16_loop_init_backend_fd_refuted.
+
+Theorem C16_loop_init_abort_refuted :
+  exists (w : world) (l : ledger) (s : site),
+    o_res (uv_loop_init true l w) = Abort s /\ permitted s = false /\
+    In (Fail EMFILE) (w_sys w) /\ Forall (fun a => a = Ok \/ a = Fail EMFILE) (w_sys w).
+Proof. exact loop_init_abort_witness. Qed.
+Print Assumptions C16_loop_init_abort_refuted.
+
+(* ---- the hypotheses are satisfiable / the models run ----------------------------------------------- *)
+Example C16_example :
+  o_res (uv_spawn [true; true; false] true l0 (mkW [] [Ok; Fail EMFILE] [])) = Ret (RcErr EMFILE) /\
+  o_led (uv_spawn [true; true; false] true l0 (mkW [] [Ok; Fail EMFILE] [])) = add_hq 1 l0 /\
+  o_res (uv_spawn [true; true; false] true l0 (mkW [] [] [])) = Ret RcOk /\
+  l_fds (o_led (uv_spawn [true; true; false] true l0 (mkW [] [] []))) = 2.
+Proof. exact spawn_examples. Qed.
+Print Assumptions C16_example.
